@@ -117,6 +117,9 @@ def parse_vspec(path):
         text = "\n".join(buf)
         if mode == "prelude":
             u.add_part("own:%s:%d" % (u.name, len(u.parts)), text + "\n")
+        elif mode == "prelude_local":
+            # not exported by @import: specification glue that only this unit's own functions need
+            u.add_part("local:%s:%d" % (u.name, len(u.parts)), text + "\n")
         elif mode == "epilogue":
             u.epilogue += text + "\n"
         elif mode == "sig" and cur is not None:
@@ -169,9 +172,13 @@ def parse_vspec(path):
                         if x not in u.uses:
                             u.uses.append(x)
                     for k, t in other.parts:
+                        if k.startswith("local:"):
+                            continue
                         # lemmas of an imported unit are proved there; here only their statements are used
                         u.add_part(k, _assume_imported_lemmas(t) if k.startswith("own:") else t)
                     for it in other.items:
+                        if it["opts"].get("local"):
+                            continue
                         if any(j["file"] == it["file"] and j["name"] == it["name"] and j["impl"] == it["impl"] for j in u.items):
                             continue
                         it = dict(it)
@@ -183,7 +190,7 @@ def parse_vspec(path):
                 elif key == "@genconst":
                     u.add_part("gen:" + arg.strip(), gen_const(arg.strip()) + "\n")
                 elif key == "@prelude":
-                    mode = "prelude"
+                    mode = "prelude_local" if arg.strip() == "local" else "prelude"
                 elif key == "@epilogue":
                     mode = "epilogue"
                 elif key == "@item":
@@ -672,7 +679,15 @@ def generate(u, repo=None):
     extraction = []
     open_impl = None
     for it in u.items:
-        cut = cut_item(it["file"], it["kind"], it["name"], it["impl"], repo)
+        try:
+            cut = cut_item(it["file"], it["kind"], it["name"], it["impl"], repo)
+        except Undecided:
+            if it.get("imported_from"):
+                # an item of an imported unit that is gone or reshaped: this unit may not need it at all (the verifier's
+                # buffer type is irrelevant to the signer units). Leave it out; if it is needed, Verus says so (=> undecided)
+                counts["imported-item-not-found-skipped"] = counts.get("imported-item-not-found-skipped", 0) + 1
+                continue
+            raise
         if it["kind"] == "fn":
             text = render_fn(it, cut, counts)
             if it["opts"].get("external_body"):
